@@ -16,15 +16,20 @@ func TestMain(m *testing.M) { ev.Main(m, "C04", "exploration") }
 
 type Case struct {
 	Script sess.Script `json:"script"`
+	// InFlight (inflight_test.go): announcements made while an operation of the primary is in flight
+	InFlight *InFlight `json:"inflight,omitempty"`
 }
 
 func setup() {
 	c := ev.C()
-	c.Rule = "interleavings (harness-chosen, message granularity) of connect / negotiate / announce / operate / disconnect for 2-3 SINGLE_PRIMARY sessions; announced ids and the id stamped on each operation are drawn independently from a 128-bit lattice (equal ids, ids differing only in the high or only in the low word, stale, future, none); operations are next-hop ADD/REPLACE/DELETE with distinctive payloads so acceptance is visible. Rapid scripts of <=25 steps plus every script of <=4 (quick) / <=5 (thorough) steps over a 2-session alphabet with ids {1,2}^2. Oracle: an operation is accepted iff its session is the model's primary and stamp == session's last announced id == highest id; otherwise it must be answered FAILED (or end the RPC) and Get, held set, counters, election id and primary (hooks) must be unchanged; accepted operations follow the RIB model. Non-trivial = >=2 sessions have announced and >=1 operation was rejected and >=1 accepted; distinct by FNV-64 of the case JSON."
+	c.Rule = "interleavings (harness-chosen, message granularity) of connect / negotiate / announce / operate / disconnect for 2-3 SINGLE_PRIMARY sessions; announced ids and the id stamped on each operation are drawn independently from a 128-bit lattice (equal ids, ids differing only in the high or only in the low word, stale, future, none); operations are next-hop ADD/REPLACE/DELETE with distinctive payloads so acceptance is visible. Rapid scripts of <=25 steps plus every script of <=4 (quick) / <=5 (thorough) steps over a 2-session alphabet with ids {1,2}^2. Plus in-flight schedules: the primary's request is stopped (public post-change hook) inside one of its operations, 1-5 announcements by up to 3 other sessions are delivered meanwhile (each followed until answered or until its handler is parked on a lock), the operation is released; at quiescence the election id and primary must be those the announcements produce in their order and exactly the primary's correctly stamped probe operation must be programmed. Oracle: an operation is accepted iff its session is the model's primary and stamp == session's last announced id == highest id; otherwise it must be answered FAILED (or end the RPC) and Get, held set, counters, election id and primary (hooks) must be unchanged; accepted operations follow the RIB model. Non-trivial = >=2 sessions have announced and >=1 operation was rejected and >=1 accepted; distinct by FNV-64 of the case JSON."
 	c.Assumptions = []string{"operations never become held (next-hops only), so hand-over with held operations is left to C06"}
 }
 
 func runCase(c Case) *ev.Verdict {
+	if c.InFlight != nil {
+		return runInFlight(c)
+	}
 	v, st := sess.Run(c.Script, sess.Checks{P: "C04", Gate: true, Election: true})
 	if len(st.Announced) >= 2 {
 		v.Class("two-announcers")
@@ -214,6 +219,16 @@ func TestCampaign(t *testing.T) {
 			col.Scope(fmt.Sprintf("all scripts of %d steps over 2 sessions x {announce, stamped op} x ids {(1,1),(1,2),(2,1)} + disconnect", n), cnt, true)
 		}
 	})
+	t.Run("announcements-while-an-operation-is-in-flight", func(t *testing.T) {
+		rapid.Check(t, func(rt *rapid.T) {
+			if rapid.IntRange(0, 2).Draw(rt, "run?") != 0 {
+				return
+			}
+			c := drawInFlight(rt)
+			v := runCase(c)
+			col.Check(rt, ev.JSON(c), v)
+		})
+	})
 	t.Run("random", func(t *testing.T) {
 		rapid.Check(t, func(rt *rapid.T) {
 			c := Case{Script: drawScript(rt)}
@@ -228,6 +243,22 @@ func minimize(sig string, cs []byte) []byte {
 	var c Case
 	if err := json.Unmarshal(cs, &c); err != nil {
 		return nil
+	}
+	if c.InFlight != nil {
+		// shrink the announcement list
+		f := *c.InFlight
+		fails := ev.Bounded(func(s sess.Script) bool { return false })
+		_ = fails
+		for i := 0; i < len(f.Ann); {
+			g := f
+			g.Ann = append(append([]Ann(nil), f.Ann[:i]...), f.Ann[i+1:]...)
+			if runCase(Case{InFlight: &g}).HasSig(sig) {
+				f = g
+			} else {
+				i++
+			}
+		}
+		return ev.JSON(Case{InFlight: &f})
 	}
 	return ev.JSON(Case{Script: sess.Minimize(c.Script, ev.Bounded(func(s sess.Script) bool { return runCase(Case{Script: s}).HasSig(sig) }))})
 }
